@@ -2,7 +2,11 @@
 pub mod exec;
 pub mod fp;
 pub mod json;
+pub mod lin;
 pub mod model;
+pub mod ops;
+pub mod oracles;
+pub mod stuck;
 pub mod payload;
 pub mod rng;
 
